@@ -117,4 +117,11 @@ CHECKS.update({
             "note": "Trusted input: python3 zoneinfo offsets for 1985-2026 (zone WET excluded); the unit definitions in Time.tla. duration(string) formats are not decided.",
             "technique": TV},
 })
+CHECKS.update({
+    "C20": {"text": "The SQL text produced for generated CEL trees (translatable subset: operators, ?:, calls alone / as receiver / chained with 0..3 arguments, member and index paths, lists, maps, casts; string literals over quotes, backslashes, dashes, semicolons, "
+                    "newlines and comment openers in seven positions) is read back character by character by the specification's own lexer (ground / string / comment states) and parser, and the SQL tree must correspond to the CEL tree: "
+                    "same operators, operand order and grouping, function names with arguments in source order, field/index paths, casts; each CEL string literal exactly one SQL string token with the same content; no comment token; untranslatable constructs unsupported.",
+            "note": "Trusted: the standard SQL string convention ('' doubles a quote, backslash literal). Nothing executes the SQL. Known findings: '--' from double negation, unparenthesized cast operand, cast as chain receiver.",
+            "technique": "TLA+ SQL lexer state machine, parser and tree correspondence (spec/Sql.tla) + TLC validation of recorded translations (spec/Trace_Sql.tla)"},
+})
 NOT_YET = {}
